@@ -159,6 +159,7 @@ func (r *World) enter(wd *World, v int, j Job[int]) *Sub {
 	if s.ad != nil {
 		s.ad.markFn(s, false)
 	}
+	r.cut()
 	// library calls last: they contain yield points
 	s.IDSeen = j.ID()
 	if sp, ok := j.(StatusProvider); ok {
@@ -176,6 +177,7 @@ func (r *World) exit(wd *World, s *Sub) {
 	if s.ad != nil {
 		s.ad.markFn(s, true)
 	}
+	r.cut()
 }
 
 func (r *Recorder) qEnq(wd *World, q, sub int, ok bool) {
